@@ -25,10 +25,11 @@ type replyAnalysis struct {
 	witness     map[*ssa.Function]ssa.Instruction
 	queueOut    []*types.Func
 	routeMaster *types.Func
+	active      map[*ssa.Function]bool
 }
 
 func (c *Ctx) newReplyAnalysis() *replyAnalysis {
-	ra := &replyAnalysis{c: c, memo: map[*ssa.Function]int{}, witness: map[*ssa.Function]ssa.Instruction{}, errMemo: map[*ssa.Function]int{}, cutMemo: map[*ssa.Function]map[core.Edge]bool{}}
+	ra := &replyAnalysis{c: c, memo: map[*ssa.Function]int{}, witness: map[*ssa.Function]ssa.Instruction{}, errMemo: map[*ssa.Function]int{}, cutMemo: map[*ssa.Function]map[core.Edge]bool{}, active: map[*ssa.Function]bool{}}
 	for _, f := range [][2]string{{"Hub", "join"}, {"Hub", "routeCli"}, {"Hub", "meta"}, {"Hub", "unreg"},
 		{"Subscription", "broadcast"}, {"Subscription", "meta"}, {"Subscription", "done"}, {"Topic", "reg"}, {"Topic", "unreg"}, {"Topic", "meta"}, {"Topic", "clientMsg"}} {
 		ra.handoff = append(ra.handoff, c.field("server", f[0], f[1]))
@@ -73,8 +74,41 @@ func (ra *replyAnalysis) isReplyInstr(in ssa.Instruction) bool {
 			// request forwarded to the master node of a proxied topic (the caller replies when forwarding fails)
 			return true
 		}
-		if cal := x.Common().StaticCallee(); cal != nil && cal.Blocks != nil && strings.HasPrefix(cal.Pkg.Pkg.Path(), core.ModPath) {
-			return ra.always(cal)
+		if cal := x.Common().StaticCallee(); cal != nil && cal.Blocks != nil && core.InModule(cal) {
+			if ra.always(cal) {
+				return true
+			}
+			// with the call's arguments in place of the parameters (a channel passed to a helper or
+			// to a function literal) and the captured variables bound
+			if _, isCall := in.(*ssa.Call); isCall && !ra.active[cal] && (len(cal.Params) > 0 || len(cal.FreeVars) > 0) {
+				ra.active[cal] = true
+				defer delete(ra.active, cal)
+				saved := core.ParamSubst
+				ns := map[ssa.Value]ssa.Value{}
+				for k, v := range saved {
+					ns[k] = v
+				}
+				for i, p := range cal.Params {
+					if i < len(x.Common().Args) {
+						ns[p] = x.Common().Args[i]
+					}
+				}
+				if mc, ok := x.Common().Value.(*ssa.MakeClosure); ok {
+					for i, fv := range cal.FreeVars {
+						if i < len(mc.Bindings) {
+							ns[fv] = mc.Bindings[i]
+						}
+					}
+				}
+				core.ParamSubst = ns
+				delete(ra.cutMemo, cal)
+				cut := ra.cuts(cal)
+				found, _ := core.PathAvoiding(cal, nil, core.IsReturn, ra.isReplyInstr, cut)
+				delete(ra.cutMemo, cal)
+				core.ParamSubst = saved
+				return !found
+			}
+			return false
 		}
 	}
 	return false
@@ -100,12 +134,36 @@ func (ra *replyAnalysis) always(fn *ssa.Function) bool {
 	cut := ra.cuts(fn)
 	found, w := core.PathAvoiding(fn, nil, core.IsReturn, ra.isReplyInstr, cut)
 	if found {
+		// confirmed on the interprocedural, nil-sensitive walk: replies made inside a helper or a
+		// function literal (also a deferred one) on some of its paths only
+		if f2, w2, over := core.PathAvoidingDeep(fn, nil, nil, core.IsReturn, ra.isReplyInstr, ra.regionCuts(fn, nil)); !over {
+			found, w = f2, w2
+		}
+	}
+	if found {
 		ra.memo[fn] = 3
 		ra.witness[fn] = w
 		return false
 	}
 	ra.memo[fn] = 2
 	return true
+}
+
+// regionCuts: the cuts of fn, of its function literals and of the helpers only it calls; extra adds
+// rule-specific cuts per function.
+func (ra *replyAnalysis) regionCuts(fn *ssa.Function, extra func(f *ssa.Function) map[core.Edge]bool) map[core.Edge]bool {
+	out := map[core.Edge]bool{}
+	for f := range ra.c.regionOf(fn) {
+		for e := range ra.cuts(f) {
+			out[e] = true
+		}
+		if extra != nil {
+			for e := range extra(f) {
+				out[e] = true
+			}
+		}
+	}
+	return out
 }
 
 // cuts: edges on which the obligation is already discharged or does not apply: a hand-off
@@ -398,6 +456,21 @@ func (c *Ctx) checkConsumers(ra *replyAnalysis) {
 						return ra.isReplyInstr(x)
 					}
 					found, _ := pathFromEdgeAvoidingNil(fn, edges, target, isReply, cut)
+					if found {
+						extra := func(f *ssa.Function) map[core.Edge]bool {
+							out, _ := core.PassEdges(f, gNote)
+							if sp.field == "meta" && onlyGetSet {
+								ps, _ := core.PassEdges(f, core.NilGuard("msg.Set==nil", core.IsFieldLoad(setF), true))
+								for e := range ps {
+									out[e] = true
+								}
+							}
+							return out
+						}
+						if f2, _, over := core.PathAvoidingDeep(fn, nil, edges, target, isReply, ra.regionCuts(fn, extra)); !over {
+							found = f2
+						}
+					}
 					construct := fmt.Sprintf("%s: request received from %s.%s is answered or handed on before the next one", fk(fn), sp.typ, sp.field)
 					detail := ""
 					if found {
